@@ -48,11 +48,11 @@ cpdef Dense tidyup_dense(Dense matrix, double tol, bint inplace=True):
     cdef double complex value
     cdef size_t ptr
     for ptr in range(matrix.shape[0] * matrix.shape[1]):
-        value = matrix.data[ptr]
+        value = out.data[ptr]
         if fabs(value.real) < tol:
-            matrix.data[ptr].real = 0
+            out.data[ptr].real = 0
         if fabs(value.imag) < tol:
-            matrix.data[ptr].imag = 0
+            out.data[ptr].imag = 0
     return out
 
 
